@@ -97,7 +97,14 @@ type Explorer struct {
 	Params         map[string]int
 	Tier           string
 	MaxFindings    int
+	NoMerge        bool
+	Merges         int
+	Workers        int
 	posHook        func() string
+	spawn          func(prefix []dec)
+	baseLen        int
+	SplitDepth     int
+	curLabel       string
 	AssumeAfterBug bool
 }
 
@@ -147,7 +154,16 @@ func (e *Explorer) endRun() { e.S.EndRun() }
 
 // next prepares the next prefix; false when the search space is exhausted.
 func (e *Explorer) next() bool {
-	for k := len(e.trail) - 1; k >= 0; k-- {
+	// hand unexplored alternatives near the root to other workers
+	if e.spawn != nil {
+		for k := e.baseLen; k < len(e.trail) && k < e.SplitDepth && k < len(e.pending); k++ {
+			for _, alt := range e.pending[k] {
+				e.spawn(append(append([]dec{}, e.trail[:k]...), alt))
+			}
+			e.pending[k] = nil
+		}
+	}
+	for k := len(e.trail) - 1; k >= e.baseLen; k-- {
 		if k < len(e.pending) && len(e.pending[k]) > 0 {
 			alt := e.pending[k][0]
 			e.pending[k] = e.pending[k][1:]
@@ -168,7 +184,11 @@ func (e *Explorer) assume(t *smt.Term) {
 }
 
 func (e *Explorer) check(extra ...*smt.Term) smt.Result {
+	t0 := time.Now()
 	r, _ := e.S.Check(extra, nil)
+	if d := time.Since(t0); d > 3*time.Second && os.Getenv("VERIF_PROGRESS") != "" {
+		fmt.Fprintf(os.Stderr, "[%s] slow feasibility query %.1fs (%s) at %s\n", e.Harness, d.Seconds(), r, e.curPos())
+	}
 	return r
 }
 
@@ -399,6 +419,12 @@ func (e *Explorer) inconclusive(kind, msg string) {
 // decide runs a final obligation query "pc ∧ neg" with escalation to the
 // one-shot portfolio when the incremental solver gives up.
 func (e *Explorer) decide(neg *smt.Term) (smt.Result, map[string]smt.Value) {
+	t0 := time.Now()
+	defer func() {
+		if d := time.Since(t0); d > 3*time.Second && os.Getenv("VERIF_PROGRESS") != "" {
+			fmt.Fprintf(os.Stderr, "[%s] slow obligation %.1fs: %s\n", e.Harness, d.Seconds(), e.curLabel)
+		}
+	}()
 	r, m := e.S.Check([]*smt.Term{neg}, e.modelVars())
 	if r == smt.Unknown || (r == smt.Sat && m == nil) {
 		r2, m2, _ := e.S.OneShot(e.Portfolio, []*smt.Term{neg}, e.modelVars(), e.OneShotTimeout)
@@ -462,6 +488,7 @@ func (e *Explorer) curPos() string {
 func (e *Explorer) Assert(cond *smt.Term, msg string) {
 	e.Reached[msg]++
 	e.Obligations++
+	e.curLabel = msg
 	if cond.IsTrue() {
 		e.Discharged++
 		e.Trivial++
